@@ -347,6 +347,27 @@ impl SubCheck for States {
             .boxed()
     }
     fn check(&self, c: &StateCase, cov: &mut Cov) -> Result<(), Fail> {
+        // a wide system (more actors than bits in a machine word): one crash flag apart, or one
+        // timer apart, at any actor index
+        if c.val % 8 == 0 {
+            let wide = 65 + (c.at as usize % 24);
+            let quiet = Proto {
+                actors: vec![c.actors[0]; wide],
+                timers: vec![BTreeSet::new(); wide],
+                choices: vec![Default::default(); wide],
+                crashed: vec![false; wide],
+                history: vec![],
+                net: RNet::new(c.net),
+            };
+            let k = (c.at as usize).wrapping_mul(37) % wide;
+            let mut down = quiet.clone();
+            down.crashed[k] = true;
+            law(&real_state(&quiet, c.how_a), &real_state(&down, c.how_b), false, "actor-model-state/wide-system-crash-flag")?;
+            let mut armed = quiet.clone();
+            armed.timers[k].insert(1);
+            law(&real_state(&quiet, c.how_a), &real_state(&armed, c.how_b), false, "actor-model-state/wide-system-timer")?;
+            cov.label("wide_system(>64_actors)");
+        }
         let p1 = proto(c);
         let mut p2 = p1.clone();
         let n = p1.actors.len();
